@@ -200,7 +200,7 @@ def check_cells(out, what='output'):
             raise ValueError(f"{what}{list(ix)} holds a nested sequence: shape error masked by object dtype")
 
 
-def float_args(c: Compiled, env: Dict[str, float], binding: Binding, y_names: List[str], t_value=0.0):
+def float_args(c: Compiled, env: Dict[str, float], binding: Binding, y_names: List[str], t_value=0.0, hist_fn=None):
     """Concrete float arguments for the real compiled function at the point env (symbol name -> float)."""
     slot = {}
     for k, ix, name in binding.slots:
@@ -214,7 +214,7 @@ def float_args(c: Compiled, env: Dict[str, float], binding: Binding, y_names: Li
             args.append(np.array([env.get(n, 0.25) for n in y_names], dtype=float))
             continue
         if callable(a) and not isinstance(a, np.ndarray):
-            args.append(a)
+            args.append(hist_fn if hist_fn is not None else a)
             continue
         arr = np.array(a, copy=True)
         if arr.dtype.kind == 'f':
